@@ -363,6 +363,80 @@ func dbFlushHoldsLock(fd *ast.FuncDecl) bool {
 	return deferred >= 0 && iPut > deferred && iReset > iPut
 }
 
+// resetOnlyAfterSuccessfulWrite: every `….batch.Reset()` of the function sits in a block in which it is preceded by
+// `err := s.putBatch(…)` and an `if err != nil { …; return | continue }` between the two — a failed LevelDB write leaves the
+// pending batch as it is (the next flush retries it); a Reset inside a `defer` or a function literal is refused
+func resetOnlyAfterSuccessfulWrite(fd *ast.FuncDecl) bool {
+	if fd == nil {
+		return false
+	}
+	found, ok := 0, true
+	ast.Inspect(fd.Body, func(n ast.Node) bool {
+		switch x := n.(type) {
+		case *ast.FuncLit, *ast.DeferStmt:
+			ast.Inspect(x, func(m ast.Node) bool {
+				if st, isStmt := m.(ast.Stmt); isStmt && containsCall(st, "batch", "Reset") {
+					ok = false
+				}
+				return ok
+			})
+			return false
+		case *ast.BlockStmt, *ast.CommClause, *ast.CaseClause:
+			var list []ast.Stmt
+			switch y := x.(type) {
+			case *ast.BlockStmt:
+				list = y.List
+			case *ast.CommClause:
+				list = y.Body
+			case *ast.CaseClause:
+				list = y.Body
+			}
+			for i, st := range list {
+				es, isExpr := st.(*ast.ExprStmt)
+				if !isExpr || !containsCall(es, "batch", "Reset") {
+					continue
+				}
+				found++
+				guarded := false
+				for j := 0; j+1 < i+1 && j < i; j++ {
+					as, isAs := list[j].(*ast.AssignStmt)
+					if !isAs || !containsCall(as, "s", "putBatch") || len(as.Lhs) != 1 {
+						continue
+					}
+					id, isID := as.Lhs[0].(*ast.Ident)
+					if !isID || j+1 >= i+1 {
+						continue
+					}
+					is, isIf := list[j+1].(*ast.IfStmt)
+					if !isIf || is.Init != nil || len(is.Body.List) == 0 {
+						continue
+					}
+					be, isBin := is.Cond.(*ast.BinaryExpr)
+					if !isBin || be.Op != token.NEQ {
+						continue
+					}
+					l, lok := be.X.(*ast.Ident)
+					r, rok := be.Y.(*ast.Ident)
+					if !lok || !rok || l.Name != id.Name || r.Name != "nil" {
+						continue
+					}
+					switch last := is.Body.List[len(is.Body.List)-1].(type) {
+					case *ast.ReturnStmt:
+						guarded = true
+					case *ast.BranchStmt:
+						guarded = last.Tok == token.CONTINUE
+					}
+				}
+				if !guarded {
+					ok = false
+				}
+			}
+		}
+		return ok
+	})
+	return ok && found > 0
+}
+
 func persisterSections(repo string) string {
 	p := parsePkg(filepath.Join(repo, "leveldb"))
 	var sb strings.Builder
@@ -377,6 +451,7 @@ func persisterSections(repo string) string {
 		{"serialHasBatchReadsAtomic", "SerialDB.Has reads IsRemoved and batch.Get inside ONE mutBatch critical section", batchReadsAtomicDeep(p, "SerialDB", "Has")},
 		{"serialFlushHoldsLock", "SerialDB.putBatch holds mutBatch from the batch swap until the process loop has answered the write", serialFlushHoldsLock(p.funcs["SerialDB.putBatch"])},
 		{"dbFlushHoldsLock", "DB.updateBatchWithIncrement holds mutBatch across putBatch and batch.Reset", dbFlushHoldsLock(p.funcs["DB.updateBatchWithIncrement"])},
+		{"dbResetOnlyAfterSuccessfulWrite", "DB: the size-triggered and the timer-triggered flush reset the pending batch only after putBatch returned nil (a failed write keeps the batch for the next flush)", resetOnlyAfterSuccessfulWrite(p.funcs["DB.updateBatchWithIncrement"]) && resetOnlyAfterSuccessfulWrite(p.funcs["DB.batchTimeoutHandle"])},
 	}
 	for _, f := range facts {
 		fmt.Fprintf(&sb, "/-- %s -/\ndef %s : Bool := %s\n", f.doc, f.name, leanBool(f.val))
